@@ -27,6 +27,11 @@ CHECKS = {
    text="Engine B: on a real ClusterInfo with an explicit upstream subset, every history of picks and readiness flips (k=2,3,4; depth 9/9/8, thorough 12/12/11) must be strictly balanced in every window of every stable segment; without a subset, every pick chooses one of the k! iteration orders of the endpoint map (Go leaves the order unspecified) and the BFS runs over canonical (count differences, real cursors mod k) states to depth 40 (k=2) / 14 (k=3) with the deviation bound k!. Engine A: 2-3 concurrent pickers x 1-2 picks (thorough up to 3x2, bound 3) over k=2,3 endpoints incl. one unready, every interleaving up to 2 preemptions, statement-level points in Pop: the N picks must be distributed floor/ceil and never hit an unready endpoint.",
    ref="DESIGN.md §6 C14",
    note="Trusted: shim semantics of sync.Map/atomic (sequential consistency), add-only read hook VerifCursor, set-up outside the scheduler (vsched.Passthrough). Statement-level points only in Pop and syncEndpoints; elsewhere sync operations are the points."),
+ "C13": dict(cat="model_checking", engine="xstate+enum",
+   technique="explicit-state BFS over leadership-callback histories on the real rateLimiter+leaderElector (local and API-backed store) + exhaustive (name, shard count) enumeration through the real gateway-side clientSets and limiter server with live shard-count changes",
+   text="Engine B: every history (depth 10 local store / 9 k8s store; thorough 14/12 or fixpoint) of gain / lose / other-leader / leaderCheck / report / acquire / cluster update / cluster delete / cleanup over 2 shards with one upstream each is applied to the real server; an operation may succeed or change any store only under leadership of the upstream's shard, a refusal must name the leader and leave the dump of all stores unchanged, a lost or handed-over shard has no store afterwards and a regained one starts without earlier instance state. Engine C: every byte string of length <= 2 over a 24-byte alphabet plus 2 000 (thorough 100 000) realistic names x N in 1..17, 31..33, 64, 1000, 65536, 2^31-1: range, determinism, gateway == server (the server's request paths are checked to use the same mapping under N in {1,2,3,5}), and requests issued through ClientFor arrive at the stub that leads the shard - also after the advertised shard count changes on a live clientSets.",
+   ref="DESIGN.md §6 C13",
+   note="Trusted: callback orders of client-go v0.18 leader election as modelled in h/c13 (stated in the evidence), fake clientsets as API server, loopback stubs as limiter servers, add-only hooks (VerifNew without timer loops, elector callbacks, lister indexer)."),
 }
 def manifest():
     checks = []
